@@ -429,6 +429,14 @@ func scenarios(tier string) []*vx.Scenario {
 		sc.Shards = 6
 		s = append(s, sc)
 	}
+	// a burst far larger than any batch size an implementation might pick (80 messages each way), queued on the old
+	// transport when the transports are swapped: all of it is carried over (fault-free upgrade and the stall that
+	// ends in the upgrade timeout)
+	for _, fi := range []int{0, 2} {
+		sc := scenario(faults[fi], 80, 1, true)
+		sc.Shards = 4
+		s = append(s, sc)
+	}
 	// a slow POST in flight across the swap (fault-free upgrade and the two stalls that end in the upgrade timeout)
 	slowFirstPost = true
 	for _, fi := range []int{0, 2, 3} {
@@ -464,6 +472,14 @@ func scenarios(tier string) []*vx.Scenario {
 				}
 				s = append(s, sc)
 			}
+		}
+	}
+	// bursts of 70 events each way at every half L of the upgrade (more than any batch size an implementation might
+	// pick for a poll answer): whatever is queued on the polling transport at the swap is carried over, all of it
+	for _, pl := range []time.Duration{0, 3 * L / 2} {
+		for k := 0; k <= 8; k++ {
+			tm := sioTiming{PollRespLat: pl, PipeLat: L, EmitAt: time.Duration(k) * L / 2, Gap: 0}
+			s = append(s, sioScenario(fmt.Sprintf("socket.io/timed-burst-of-70/poll-answer-latency=%v,emit-at=%v", pl, tm.EmitAt), make([]int, 70), tm, 0))
 		}
 	}
 	if tier == "thorough" {
